@@ -17,8 +17,9 @@ ASSUMPTIONS = [
     "penalty amount = trunc((2*total*pct+dec)/(2*dec)): equals the big.Float computation amt*pct/dec+0.5 truncated for |total| < 2^60, dec > 0",
     "at most one GUILTY verdict per block in the generated histories (the Go code ranges over a map of requests); "
     "no byzantine evidence and no absent validators in the generated blocks",
-    "maturity option changes are injected with the calls the governance update makes (governance.Store.SetStakingOptions + SetLUH "
-    "on the deliver state), not through a full proposal life cycle",
+    "the maturity option given to the model is the one PERSISTED in the governance store, read through the harness's own governance.Store "
+    "object at each transaction; it changes by a finalised configuration-update proposal (scripted history on a production-range genesis) "
+    "and, in the random histories, by the calls the governance update makes (SetStakingOptions + SetLUH on the deliver state)",
     "every history runs in a child process; one in which the application exits (logger.Fatal) is dropped and counted in "
     "coverage.crashed_histories (none since fix e681066; findings/C11_observation_negative_power_exit.json is a corpus case that must run to the end)",
     "C11_validator_record assumes (environment, stated in the theorem): non-negative genesis amounts; no validator record reaches 2^63 "
@@ -40,7 +41,7 @@ MONITORS = {
     16: ("WITHDRAW accepted while a validator owned by the delegator is frozen", [5]),
     17: ("staked - penalised - withdrawn differs from effective + withdrawable + maturing", []),
     18: ("withdrawable changed by something else than entries maturing at this height minus withdrawals", []),
-    19: ("a successful UNSTAKE left no maturing entry at height + maturity", []),
+    19: ("a successful UNSTAKE left no maturing entry at height + the maturity option in force in the store", []),
     20: ("a STAKE/UNSTAKE/WITHDRAW naming a frozen validator was accepted", []),
     21: ("the penalty taken by a GUILTY verdict differs from the configured share of the convicted validator's own total", []),
 }
@@ -181,7 +182,7 @@ def run(ctx):
     clean_cases = len(cases) - len({c for (c, _, _) in trg})
     ctx.coverage.update({
         "evaluations": rep["steps"], "distinct_nontrivial": rep["txs"],
-        "rule": "11 scripted histories (life cycle, GUILTY verdicts on both validators of a stake account that backs two validators, several unstakes of one delegator maturing at the same height from the same and from another validator, the former refuted-theorem witnesses, verdict+freeze, maturity option change on a genesis "
+        "rule": "13 scripted histories (life cycle, configuration-update proposals about stakingOptions.* between stake and unstake — refused, CheckTx only, created, funded but unvoted, and one finalised on a production-range genesis —, GUILTY verdicts on both validators of a stake account that backs two validators, several unstakes of one delegator maturing at the same height from the same and from another validator, the former refuted-theorem witnesses, verdict+freeze, maturity option change on a genesis "
                 "with maturing amounts) + seeded random histories of 14-23 blocks over 6 validators (4 genesis, 2 candidates) and their "
                 "stake accounts (candidates partly staked from a genesis validator's account; bursts of 2-4 unstakes of one delegator per block): stake/unstake/withdraw with amounts around 0, the balance (1,000,000 OLT), the validator total, and in a "
                 "third of the histories 2^63-1, 2^64, 2^64+1000, 2^65, -1, -100, -2^64 (all rejected since fix 48c76fc); a GUILTY verdict in half of them (in two thirds of those the convicted validator's stake account backs a second validator: larger or smaller share); maturity 0..5; "
@@ -191,6 +192,9 @@ def run(ctx):
         "restarts": rep.get("restarts"), "restarts_between_endblock_and_commit": rep.get("restarts_between_endblock_and_commit"),
         "restarts_after_verdict_block": rep.get("restarts_after_verdict_block"),
         "verdicts_on_shared_stake_account": rep.get("verdicts_on_shared_stake_account"),
+        "staking_option_proposals": {k: rep.get(k) for k in ("staking_option_proposals_checktx", "staking_option_proposals_delivered",
+                                      "staking_option_proposals_created", "staking_option_proposals_refused_at_checktx",
+                                      "persisted_maturity_option_changes")},
         "kind_histogram": rep["kind_histogram"], "outcome_histogram": rep["outcome_histogram"],
         "amount_class_histogram": rep["amount_class_histogram"], "verdicts": rep["verdicts"],
         "model_mismatches": len(mm), "model_mismatches_outside_known_triggers": len(bad),
